@@ -5,7 +5,7 @@ search for a concrete failing input when a verification condition is refuted.
 The interpreter is /verif/.venv/bin/python, a venv of /venv/bin/python (same CPython binary, same /repo on sys.path).
 """
 import time, traceback, itertools, sys
-from lib.common import Ob, B
+from lib.common import Ob, B, TaskTimeout
 
 
 class Native:
@@ -20,7 +20,7 @@ class Native:
         res = exc = None
         try:
             res = self.call(*args)
-        except RecursionError:
+        except (RecursionError, TaskTimeout):
             raise
         except Exception as e:           # noqa: the contract decides which exceptions are allowed
             exc = e
